@@ -1,7 +1,8 @@
 (* tree table: runs the extracted model (QTree.step) and the extracted specification (TreeSpec.sstep) on an op file.
    For each op prints two lines:  "M <observation> | <structure>"  and  "S <spec observation>". *)
-open Model
-open Util
+open Tree_model
+module U = Util.Make(Tree_model)
+open U
 
 let kv_str (k, v) = hex_of_bytes k ^ "=" ^ hex_of_bytes v
 let opt_str f = function None -> "none" | Some x -> f x
